@@ -73,6 +73,11 @@ def all_positioned(root):
             return
         if x.position is not None and x.position >= 0:
             out.append((x, x.position, str(x)))
+        elif type(x).__name__ not in impl.GROUP_KIND:
+            # only a group coerced from a bare-token argument is built without
+            # a position; every command / environment / math region the reader
+            # builds records one (reported as a wrong position otherwise)
+            out.append((x, -1 if x.position is None else x.position, str(x)))
         rec(x)
     rec(root)
     return out
